@@ -137,7 +137,12 @@ fn value_bytes(key: u8, w: usize, sn: i64) -> Vec<u8> {
 
 pub fn run(scenario: u32, choices: &[u8], _strict: bool) -> Outcome {
   if scenario == 1 {
-    return super::c08_nokey::run(choices);
+    let r = super::c08_nokey::run(choices);
+    // (every reader created and dropped leaves commands in the rig's private discovery channel;
+    // undrained, it fills up after about a million cases and the next send blocks for ever -
+    // seen as a watchdog exit 2 in a thorough run)
+    frontend::drain_discovery_commands();
+    return r;
   }
   let mut c = Choices::new(choices);
   let mut o = Outcome::new();
